@@ -122,11 +122,13 @@ def authorisedFor (pre : State) (op : Op) (d : Bytes) : Bool :=
   | .terminate _ _ _ dd sv sd => dd = d && sv && ownerOrRw sd
   | .renew _ _ sv sd _ _ data => data.contains d && sv && ownerOnly sd
   | .perm _ _ ow dd _ _ sv => dd = d && sv && ownerOnly ow
-  -- a completion applies an accepted request to the model: the DID that signed the order must still
-  -- be the owner or hold read-write access when it is applied (UpdateMeta re-checks it)
+  -- the completion that applies an accepted request to the model (the first one of its order): the DID that signed the
+  -- order must still be the owner or hold read-write access when it is applied (UpdateMeta re-checks it). The completions
+  -- of the order's other replicas only extend the lifetime to what the request paid for: consequences of a request that
+  -- was entitled when it was accepted and applied
   | .complete _ _ oid _ _ _ =>
     (match pre.getOrder oid with
-     | some o => if o.dataId = d then ownerOrRw o.owner else true
+     | some o => if o.dataId = d && o.status ≠ OrderCompleted then ownerOrRw o.owner else true
      | none => true)
   -- scheduled expiry and automatic rollback are not requests
   | .cancel .. => true
